@@ -18,7 +18,11 @@ import (
 // several ManualReaders; forced schedules in which the collections of two readers OVERLAP (public API only: the
 // callback is user code, so the harness parks it on a gate — no sleeps).
 //   obs <gen> <readers> <insts> | set j a v | unset j a | col r | ovl r1 r2 j … => <record> …
-// readers: m<d|c><d|c> (temporality for observable counters / observable up-down counters); insts: <i|f><C|U|G>.
+// readers: m<d|c><d|c>[r|D] (temporality for observable counters / observable up-down counters; r = the reader's
+// AggregationSelector answers an aggregation isAggregatorCompatible rejects for every observable kind, D = AggregationDrop:
+// the reader has no stream of any observable instrument, all other readers are served as usual); insts: <i|f><C|U|G>,
+// a trailing "+reg" = the instruments are created WITHOUT callbacks and one Meter.RegisterCallback callback observes all of
+// them in index order (through metric.Observer).
 // set/unset edit what instrument j's callback observes; col r = one collection of reader r;
 // ovl r1 r2 j = reader r1's collection starts (goroutine), its callback of instrument j is parked BEFORE it observes,
 // reader r2 performs a whole collection, then r1 is released: records of r2 first, then r1.
@@ -79,6 +83,10 @@ func TestVerifC02Obs(t *testing.T) {
 		var opts []Option
 		for _, rc := range strings.Split(rstr, ",") {
 			tc, tu := c02PT(rc[1]), c02PT(rc[2])
+			mode := byte('-')
+			if len(rc) == 4 {
+				mode = rc[3] // r: the selector answers an incompatible aggregation for the observable kinds; D: it drops them
+			}
 			r := NewManualReader(WithTemporalitySelector(func(k InstrumentKind) metricdata.Temporality {
 				switch k {
 				case InstrumentKindObservableCounter:
@@ -87,6 +95,17 @@ func TestVerifC02Obs(t *testing.T) {
 					return tu
 				}
 				return metricdata.CumulativeTemporality
+			}), WithAggregationSelector(func(k InstrumentKind) Aggregation {
+				obs := k == InstrumentKindObservableCounter || k == InstrumentKindObservableUpDownCounter || k == InstrumentKindObservableGauge
+				switch {
+				case obs && mode == 'D':
+					return AggregationDrop{}
+				case obs && mode == 'r' && k == InstrumentKindObservableGauge:
+					return AggregationSum{} // rejected by isAggregatorCompatible
+				case obs && mode == 'r':
+					return AggregationLastValue{} // rejected by isAggregatorCompatible
+				}
+				return DefaultAggregationSelector(k)
 			}))
 			readers = append(readers, r)
 			opts = append(opts, WithReader(r))
@@ -94,8 +113,11 @@ func TestVerifC02Obs(t *testing.T) {
 		mp := NewMeterProvider(opts...)
 		defer mp.Shutdown(ctx)
 		m := mp.Meter("c02obs")
-		icodes := strings.Split(istr, ",")
+		regMode := strings.HasSuffix(istr, "+reg") // no creation-time callbacks: ONE RegisterCallback callback for all instruments
+		icodes := strings.Split(strings.TrimSuffix(istr, "+reg"), ",")
 		n := len(icodes)
+		iobs := make([]metric.Int64Observable, n)
+		fobs := make([]metric.Float64Observable, n)
 		var mu sync.Mutex
 		tables := make([]map[int]int64, n)
 		gates := make([]*gate, n)
@@ -134,20 +156,54 @@ func TestVerifC02Obs(t *testing.T) {
 				}
 				return nil
 			})
-			switch ic {
-			case "iC":
+			switch {
+			case regMode && ic == "iC":
+				iobs[j], _ = m.Int64ObservableCounter(name)
+			case regMode && ic == "iU":
+				iobs[j], _ = m.Int64ObservableUpDownCounter(name)
+			case regMode && ic == "iG":
+				iobs[j], _ = m.Int64ObservableGauge(name)
+			case regMode && ic == "fC":
+				fobs[j], _ = m.Float64ObservableCounter(name)
+			case regMode && ic == "fU":
+				fobs[j], _ = m.Float64ObservableUpDownCounter(name)
+			case regMode:
+				fobs[j], _ = m.Float64ObservableGauge(name)
+			case ic == "iC":
 				_, _ = m.Int64ObservableCounter(name, icb)
-			case "iU":
+			case ic == "iU":
 				_, _ = m.Int64ObservableUpDownCounter(name, icb)
-			case "iG":
+			case ic == "iG":
 				_, _ = m.Int64ObservableGauge(name, icb)
-			case "fC":
+			case ic == "fC":
 				_, _ = m.Float64ObservableCounter(name, fcb)
-			case "fU":
+			case ic == "fU":
 				_, _ = m.Float64ObservableUpDownCounter(name, fcb)
 			default:
 				_, _ = m.Float64ObservableGauge(name, fcb)
 			}
+		}
+		if regMode {
+			var all []metric.Observable
+			for j := 0; j < n; j++ {
+				if iobs[j] != nil {
+					all = append(all, iobs[j])
+				} else if fobs[j] != nil {
+					all = append(all, fobs[j])
+				}
+			}
+			_, _ = m.RegisterCallback(func(_ context.Context, o metric.Observer) error {
+				for j := 0; j < n; j++ {
+					for _, kv := range enter(j) {
+						if iobs[j] != nil {
+							o.ObserveInt64(iobs[j], kv[1], metric.WithAttributeSet(c02Set(int(kv[0]))))
+						} else if fobs[j] != nil {
+							o.ObserveFloat64(fobs[j], float64(kv[1])/256, metric.WithAttributeSet(c02Set(int(kv[0]))))
+						}
+					}
+				}
+				return nil
+			}, all...)
 		}
 		var recs []string
 		collect := func(i, r int) string {
@@ -192,6 +248,14 @@ func TestVerifC02Obs(t *testing.T) {
 				go func() { done <- collect(i, r1) }()
 				select {
 				case <-g.parked:
+				case rec1 := <-done:
+					// reader r1 has no callback of instrument j (its selector rejects / drops the observable kinds): its
+					// collection ran to the end without parking; reader r2's collection, then the records in the usual order
+					mu.Lock()
+					gates[j] = nil
+					mu.Unlock()
+					recs = append(recs, collect(i, r2), rec1)
+					continue
 				case <-time.After(20 * time.Second):
 					recs = append(recs, fmt.Sprintf("%d:%d:hang", i, r1))
 					close(g.release)
@@ -247,6 +311,19 @@ func TestVerifC02Obs(t *testing.T) {
 		if c%2 == 0 { // always a delta and a cumulative reader side by side
 			rs[0], rs[1] = "mdd", "mcc"
 		}
+		gen := "rnd"
+		if c%3 == 1 {
+			// a reader whose AggregationSelector rejects (r) or drops (D) every observable kind, before / between / after
+			// the normal readers: every other reader must see every observation
+			gen = "rej"
+			x := "m" + vPick(r, temps) + vPick(r, temps) + vPick(r, []string{"r", "r", "D"})
+			at := r.Intn(len(rs) + 1)
+			if c%6 == 1 {
+				at = 0
+			}
+			rs = append(rs[:at], append([]string{x}, rs[at:]...)...)
+			nr = len(rs)
+		}
 		ni := 1 + r.Intn(3)
 		for k := 0; k < ni; k++ {
 			is = append(is, vPick(r, []string{"iC", "iU", "iG", "fC", "fU", "fG"}))
@@ -274,6 +351,11 @@ func TestVerifC02Obs(t *testing.T) {
 		for k := 0; k < nr; k++ {
 			ops = append(ops, []string{"col", strconv.Itoa(k)})
 		}
-		run("rnd", strings.Join(rs, ","), strings.Join(is, ","), ops)
+		istr := strings.Join(is, ",")
+		if c%4 == 2 || c%12 == 1 {
+			istr += "+reg"
+			gen += "+reg"
+		}
+		run(gen, strings.Join(rs, ","), istr, ops)
 	}
 }
